@@ -273,6 +273,12 @@ func (p *Prog) termReads(t *Term) *readSet {
 				walk(a, true)
 			}
 			return
+		case "slice":
+			// re-slicing depends on the slice header only, not on the contents
+			for i, a := range x.Args {
+				walk(a, i == 0 || shallow)
+			}
+			return
 		case "call":
 			if f, ok := x.Obj.(*types.Func); ok && f.Pkg() == p.Types {
 				if fi := p.FuncOf(f); fi != nil {
